@@ -150,6 +150,19 @@ func runWire(e *Env) {
 
 	// ---- swarm ----
 	proto := []int{4, 3, 5, 2, 1}[tp.Next(5)]
+	// a second node that advertises other compression algorithms than the first (a cluster in
+	// the middle of an upgrade): what is negotiated is a matter of each connection
+	var adv2 []string
+	twoNodes := tp.Chance(1, 6)
+	if twoNodes {
+		h2 := *cl.Hosts[0]
+		h2.Addr, h2.HostID, h2.Nonce = "10.0.0.2", "00000000-0000-4000-8000-000000000002", "n2"
+		h2.Tokens = []string{"-8000000000000000000"}
+		h2.Prepared = map[string]*node.PreparedStmt{}
+		cl.Hosts = append(cl.Hosts, &h2)
+		adv2 = [][]string{nil, {"snappy"}, {"lz4"}, {"snappy", "lz4"}}[tp.Next(4)]
+		k.Fault("swarm.second-node-with-its-own-compression-list")
+	}
 	compName := []string{"", "snappy", "lz4"}[tp.Next(3)]
 	adv := [][]string{{"snappy", "lz4"}, nil, {"snappy"}, {"lz4"}, {"zstd"}}[tp.Next(5)]
 	respCompress := tp.Next(3) // 0 never, 1 literal-only blocks, 2 library-compressed blocks
@@ -171,7 +184,21 @@ func runWire(e *Env) {
 	if adv != nil {
 		cl.Supported["COMPRESSION"] = adv
 	}
-	cfg := BaseConfig(cl, "10.0.0.1")
+	contact := []string{"10.0.0.1"}
+	if twoNodes {
+		contact = append(contact, "10.0.0.2")
+		sup2 := map[string][]string{"CQL_VERSION": {"3.4.4"}}
+		if adv2 != nil {
+			sup2["COMPRESSION"] = adv2
+		}
+		cl.SupportedFor = func(h *node.Host) map[string][]string {
+			if h.Addr == "10.0.0.2" {
+				return sup2
+			}
+			return cl.Supported
+		}
+	}
+	cfg := BaseConfig(cl, contact...)
 	// some sessions keep their control connection: the node can then push events, which
 	// are frames like any other (stream -1, every protocol version)
 	ctrl := tp.Chance(1, 4)
@@ -251,8 +278,14 @@ func runWire(e *Env) {
 			k.Violate("C03", "C03/wrong-protocol-version", "conn %s: %s frame carries version %d, the session was configured for %d", sc.C.Name, cqlspec.OpName(rq.Header.Opcode), rq.Header.Version, proto)
 		}
 		if rq.Header.Opcode == cqlspec.OpStartup {
-			if got := rq.Options["COMPRESSION"]; got != negotiated {
-				k.Violate("C18", "C18/wrong-compressor-negotiated", "STARTUP COMPRESSION=%q; configured %q, advertised %v", got, compName, adv)
+			want := ""
+			for _, a := range sc.Advertised {
+				if a == compName && compName != "" {
+					want = compName
+				}
+			}
+			if got := rq.Options["COMPRESSION"]; got != want {
+				k.Violate("C18", "C18/wrong-compressor-negotiated", "conn %s: STARTUP COMPRESSION=%q; configured %q, this node advertised %v", sc.C.Name, got, compName, sc.Advertised)
 			}
 			if rq.Options["CQL_VERSION"] != cfg.CQLVersion {
 				k.Violate("C03", "C03/startup-options", "STARTUP CQL_VERSION=%q, configured %q", rq.Options["CQL_VERSION"], cfg.CQLVersion)
